@@ -966,6 +966,122 @@ example : ∃ (vals : List Val) (ears : List Tri) (last : Tri),
 example : (mapTris (run (earclipCellCW (stdCfg 3 0) d7MapCW.n 1 [6, 7, 8, 9]) d7MapCW).2
     [(1, 2, 6), (3, 4, 8), (7, 9, 5)]).map tri2 = [-16, -8, -4] := by decide +kernel
 
+/-! ## the last triangle -/
+
+/-- decidable, on the vertex list alone: the triangle left at the end of `earclipTriangles` passes the announced test -/
+def lastOKb (inside : P2 → P2 → P2 → Bool) (k : Nat) (vs : List P2) : Bool :=
+  match earclipTriangles inside k vs with
+  | none => true
+  | some tris =>
+      match tris.getLast? with
+      | none => true
+      | some T => inside T.1 T.2.1 T.2.2
+
+def LastOK (inside : P2 → P2 → P2 → Bool) (k : Nat) (vs : List P2) : Prop := lastOKb inside k vs = true
+
+instance (inside : P2 → P2 → P2 → Bool) (k : Nat) (vs : List P2) : Decidable (LastOK inside k vs) := by
+  unfold LastOK; exact inferInstance
+
+/-- **the sign of the last triangle is NOT a consequence of the ear tests** (it needs the simplicity of the polygon): on
+    the self-crossing quadrilateral `(0,0) (4,0) (4,4) (5,3)` — doubled area `8 > 0` — the first corner is accepted as a
+    counter-clockwise ear (cross `16`, the fourth vertex strictly outside), and the triangle left, `(0,0) (4,4) (5,3)`, is
+    CLOCKWISE (cross `-8`) -/
+theorem C13_earclip_last_triangle_needs_simplicity_witness :
+    findEar insideCCW [⟨0, 0⟩, ⟨4, 0⟩, ⟨4, 4⟩, ⟨5, 3⟩] = some 0 ∧
+    earclipTriangles insideCCW 1 [⟨0, 0⟩, ⟨4, 0⟩, ⟨4, 4⟩, ⟨5, 3⟩]
+      = some [(⟨0, 0⟩, ⟨4, 0⟩, ⟨4, 4⟩), (⟨0, 0⟩, ⟨4, 4⟩, ⟨5, 3⟩)] ∧
+    tri2 (⟨0, 0⟩, ⟨4, 4⟩, ⟨5, 3⟩) = -8 ∧ area2 [⟨0, 0⟩, ⟨4, 0⟩, ⟨4, 4⟩, ⟨5, 3⟩] = 8 ∧
+    ¬ LastOK insideCCW 1 [⟨0, 0⟩, ⟨4, 0⟩, ⟨4, 4⟩, ⟨5, 3⟩] := by decide +kernel
+
+/-- **C13, every triangle of the result has the announced orientation — PARTIAL**: under the decidable condition `LastOK`
+    on the vertex list (evaluated by the oracle of tools/props/c13.py on every generated simple polygon in general position;
+    on a simple polygon of the announced orientation it follows from a Jordan-type argument, which is not proved, and it
+    fails without simplicity: `C13_earclip_last_triangle_needs_simplicity_witness`), ALL `n - 2` dart triangles of the
+    result map, corners read through the result's vertex identifiers, pass the announced orientation test -/
+theorem C13_earclip_all_triangles_oriented_partial (cfg : Cfg Val) (hlaw : cfg.law 0 = avgLaw)
+    (inside : P2 → P2 → P2 → Bool) (hins : ∀ a b c, inside a b c = true → a ≠ c) (m m' : Map Val)
+    (face : Nat) (nds rest : List Nat) (hwf : WF 3 m) (hfc : m.fc = 0) (hc : ClosedFace m face rest)
+    (hsp : ∀ d ∈ nds, C01.InUse m d ∧ d ∉ face :: rest) (hnd : nds.Nodup)
+    (hfresh : ∀ d ∈ nds, (∀ i, i < 3 → m.β i d = 0) ∧ m.att 0 d = none)
+    (hears : ∀ vals, run (faceVertices m.n (face :: rest)) m = (.ok vals, m) →
+      EarsNotLast inside (chunks2 nds).length (vals.map Val.p2))
+    (hlast : ∀ vals, run (faceVertices m.n (face :: rest)) m = (.ok vals, m) →
+      LastOK inside (chunks2 nds).length (vals.map Val.p2))
+    (h : run (earclipCell cfg m.n inside face nds) m = (.ok (), m')) :
+    ∃ vals : List Val,
+      run (faceVertices m.n (face :: rest)) m = (.ok vals, m) ∧
+      (∀ t ∈ earTris inside (chunks2 nds) (face :: rest) (vals.map Val.p2), TriFace m' t) ∧
+      (mapTris m' (earTris inside (chunks2 nds) (face :: rest) (vals.map Val.p2))).length + 2 = (face :: rest).length ∧
+      ∀ T ∈ mapTris m' (earTris inside (chunks2 nds) (face :: rest) (vals.map Val.p2)),
+        inside T.1 T.2.1 T.2.2 = true := by
+  obtain ⟨vals, tris, a1, a2, a3, _, a5, a6, a7, _⟩ :=
+    C13_earclip_triangles_carry_list_coordinates cfg hlaw inside hins m m' face nds rest hwf hfc hc hsp hnd hfresh hears h
+  have e : mapTris m' (earTris inside (chunks2 nds) (face :: rest) (vals.map Val.p2)) = tris :=
+    filterMap_of_map_some _ _ _ a7
+  have hl := congrArg List.length a7
+  simp only [List.length_map] at hl
+  have hor := C13_earclip_ears_oriented inside _ _ tris a3
+  have hlo := hlast vals a1
+  unfold LastOK lastOKb at hlo
+  rw [a3] at hlo
+  refine ⟨vals, a1, a5, by rw [e, ← hl]; exact a6, ?_⟩
+  rw [e]
+  intro T hT
+  have hne : tris ≠ [] := List.ne_nil_of_mem hT
+  rw [← List.dropLast_concat_getLast hne, List.mem_append, List.mem_singleton] at hT
+  rcases hT with hT | hT
+  · exact hor T hT
+  · simp only [List.getLast?_eq_some_getLast hne] at hlo
+    rw [hT]; exact hlo
+
+/-- the same for `earclip_cell_countercw`: under `LastOK`, every triangle of the result map is strictly counter-clockwise -/
+theorem C13_earclip_ccw_all_triangles_oriented_partial (cfg : Cfg Val) (hlaw : cfg.law 0 = avgLaw) (m m' : Map Val)
+    (face : Nat) (nds rest : List Nat) (hwf : WF 3 m) (hfc : m.fc = 0) (hc : ClosedFace m face rest)
+    (hsp : ∀ d ∈ nds, C01.InUse m d ∧ d ∉ face :: rest) (hnd : nds.Nodup)
+    (hfresh : ∀ d ∈ nds, (∀ i, i < 3 → m.β i d = 0) ∧ m.att 0 d = none)
+    (hears : ∀ vals, run (faceVertices m.n (face :: rest)) m = (.ok vals, m) →
+      EarsNotLast insideCCW (chunks2 nds).length (vals.map Val.p2))
+    (hlast : ∀ vals, run (faceVertices m.n (face :: rest)) m = (.ok vals, m) →
+      LastOK insideCCW (chunks2 nds).length (vals.map Val.p2))
+    (h : run (earclipCellCCW cfg m.n face nds) m = (.ok (), m')) :
+    ∃ vals : List Val,
+      run (faceVertices m.n (face :: rest)) m = (.ok vals, m) ∧
+      ∀ T ∈ mapTris m' (earTris insideCCW (chunks2 nds) (face :: rest) (vals.map Val.p2)), 0 < tri2 T := by
+  obtain ⟨vals, a1, _, _, a4⟩ := C13_earclip_all_triangles_oriented_partial cfg hlaw insideCCW insideCCW_ends_differ
+    m m' face nds rest hwf hfc hc hsp hnd hfresh hears hlast h
+  refine ⟨vals, a1, fun T hT => ?_⟩
+  have := a4 T hT
+  unfold insideCCW at this
+  simpa [tri2] using this
+
+/-- on the pentagon of `d7Map`: `LastOK` holds, all three triangles of the result are counter-clockwise -/
+example : ∃ vals : List Val, run (faceVertices d7Map.n [1, 2, 3, 4, 5]) d7Map = (.ok vals, d7Map) ∧
+    ∀ T ∈ mapTris (run (earclipCellCCW (stdCfg 3 0) d7Map.n 1 [6, 7, 8, 9]) d7Map).2
+      (earTris insideCCW (chunks2 [6, 7, 8, 9]) [1, 2, 3, 4, 5] (vals.map Val.p2)), 0 < tri2 T :=
+  C13_earclip_ccw_all_triangles_oriented_partial (stdCfg 3 0) rfl d7Map _ 1 [6, 7, 8, 9] [2, 3, 4, 5] d7_wf rfl d7_closed
+    d7_spares (by decide) d7_fresh d7_ears
+    (by
+      intro vals hv
+      rw [d7_vals] at hv
+      simp only [Prod.mk.injEq, Out.ok.injEq, and_true] at hv
+      subst hv
+      decide +kernel)
+    (ok_of_fst (by decide +kernel))
+
+example : ∃ vals : List Val, run (faceVertices d7Map.n [1, 2, 3, 4, 5]) d7Map = (.ok vals, d7Map) ∧
+    ∀ T ∈ mapTris (run (earclipCell (stdCfg 3 0) d7Map.n insideCCW 1 [6, 7, 8, 9]) d7Map).2
+      (earTris insideCCW (chunks2 [6, 7, 8, 9]) [1, 2, 3, 4, 5] (vals.map Val.p2)), insideCCW T.1 T.2.1 T.2.2 = true := by
+  obtain ⟨vals, a1, _, _, a4⟩ := C13_earclip_all_triangles_oriented_partial (stdCfg 3 0) rfl insideCCW
+    insideCCW_ends_differ d7Map _ 1 [6, 7, 8, 9] [2, 3, 4, 5] d7_wf rfl d7_closed d7_spares (by decide) d7_fresh d7_ears
+    (by
+      intro vals hv
+      rw [d7_vals] at hv
+      simp only [Prod.mk.injEq, Out.ok.injEq, and_true] at hv
+      subst hv
+      decide +kernel)
+    (ok_of_fst (by decide +kernel))
+  exact ⟨vals, a1, a4⟩
+
 /-! ## the clockwise twin of `C13_fan_accepts_convex_ccw` -/
 
 /-- **C13, fan on clockwise convex polygons**: if every triangle `(v0, v_i, v_{i+1})`, `1 ≤ i ≤ n-2`, is negatively
